@@ -2,6 +2,7 @@ package main
 
 import (
 	"bytes"
+	"errors"
 	"fmt"
 	mprops "github.com/magiconair/properties"
 	"math/rand"
@@ -270,6 +271,18 @@ func c16RoundTrips(kv map[string]string, conflict bool, want map[string]any, fai
 					}
 				}
 			}
+			// ... or that refuses ONE write and takes the later ones (a transient fault): still not "written"
+			if nl := strings.Count(b.String(), "\n"); nl >= 2 {
+				for _, k := range []int{0, nl / 2} {
+					var werr error
+					w := &failOnceW{k: k}
+					if pn := guard(func() { werr = encFn(w, toAnyMap(kv)) }); pn != "" {
+						fail = append(fail, fmt.Sprintf("encoder %d panicked on a writer refusing its write no. %d: %s", ei, k, pn))
+					} else if werr == nil && w.refused {
+						fail = append(fail, fmt.Sprintf("encoder %d: the writer refused write no. %d of about %d, yet the encoder reports success", ei, k, nl))
+					}
+				}
+			}
 			if !conflict {
 				back := map[string]any{}
 				if err := props.DecoderFn(&b, &back); err != nil {
@@ -331,4 +344,19 @@ func init() {
 			return c16Case(r, c16GenKV(r, idx%2 == 0), idx%3)
 		},
 	})
+}
+
+// a writer that refuses exactly one Write call (the k-th) and accepts every other one
+type failOnceW struct {
+	k, n    int
+	refused bool
+}
+
+func (f *failOnceW) Write(p []byte) (int, error) {
+	f.n++
+	if f.n-1 == f.k {
+		f.refused = true
+		return 0, errors.New("write refused once")
+	}
+	return len(p), nil
 }
